@@ -108,9 +108,11 @@ func LoadVerifier(repo string, patterns []string, trustedDir string) (*Verifier,
 		}
 	}
 	for _, cs := range v.contracts {
-		for _, fs := range cs.Funcs {
-			if im, ok := fs.Flags["immutable"]; ok {
-				_ = im
+		for name, t := range cs.Ghosts {
+			if strings.Contains(name, ".") {
+				ghostDecls[cs.Label+"."+name] = t.Name
+			} else {
+				ghostDecls[name] = t.Name
 			}
 		}
 	}
@@ -704,7 +706,7 @@ func (v *Verifier) VerifyFunc(cs *ContractSet, spec *FuncSpec) (res *FuncResult)
 	}
 	fr.entry = st.clone()
 	res.CoverHyps = append([]*Term(nil), st.pc...)
-	fr.ret = func(st2 *State, rv *Val) {
+	fr.ret = func(fr *Frame, st2 *State, rv *Val) {
 		r.retPaths++
 		penv := r.specEnv(st2, fr, "post")
 		penv.result = rv
